@@ -9,6 +9,10 @@ from pyvc.contract import SRC
 from vcore import native
 from vcore.obl import Obl, DISCHARGED, REFUTED, UNDECIDED, ERROR
 
+# compilation is a pure function of the text: the properties that quantify over several texts / compilations in one process
+PIPE_PROPS = ("C01", "C02", "C05", "C06", "C07", "C08", "C09", "C11", "C13", "C14", "C17")
+# compilation is a pure function of the text: the properties that quantify over several texts / compilations in one process
+PIPE_PROPS = ("C01", "C02", "C05", "C06", "C07", "C08", "C09", "C11", "C13", "C14", "C17")
 CLAUSES = {
     "compile": (("C07",), "a grammatical program compiles to an evaluator"),
     "internal-error": (("C07",), "evaluation ends with a group or the unroutable error, never an internal SyntaxError/NameError/..."),
@@ -20,6 +24,7 @@ CLAUSES = {
     "irrelevance": (("C09",), "extra keyword arguments and argument order do not change the outcome"),
     "module": (("C14",), "generate_code text (both layouts) behaves like the evaluator"),
     "inert": (("C13",), "nothing but the evaluation skeleton runs (sentinel builtin never invoked)"),
+    "rebuild": (("C01", "C07", "C11", "C02", "C08"), "a second evaluator built from the same text (after other compilations in the same process) behaves identically"),
     "total": (("C15",), "any str/int/float/bool/None splitter value yields a group"),
 }
 MUT_CLAUSES = {
@@ -245,7 +250,7 @@ def link_sly_confinement(ctx):
                     bad.append("line %d: module-level object `%s = %s(...)` shared by all callers" % (n.lineno, tgt, ast.unparse(v.func)))
         out.append(Obl("frame:%s.no-module-level-mutable-state" % mod.split("/")[-1], mod.replace("/", ".")[:-3], "frame",
                        "the module keeps no mutable object at module level (nothing is shared between evaluators, calls or threads)",
-                       status=DISCHARGED if not bad else REFUTED, backend="effect-scan", detail="; ".join(bad), props=("C17", "C01", "C11"), model={"objects": bad} if bad else None,
+                       status=DISCHARGED if not bad else REFUTED, backend="effect-scan", detail="; ".join(bad), props=PIPE_PROPS, model={"objects": bad} if bad else None,
                        replay=lambda ob: _thread_replay()))
     return out
 
@@ -254,3 +259,44 @@ def _thread_replay():
     r = native.one({"cmd": "thread_stress", "seconds": 8.0, "threads": 16}, timeout=600)
     return {"input": r["failures"][:1], "reproduced": bool(r["failures"]), "bound": r["bound"],
             "note": "thread stress is only a replay ATTEMPT for a failed confinement obligation: schedules are sampled"}
+
+
+# --------------------------------------------------------------------------------------------------------------
+# E3: ghost lemmas in Lean 4 / Mathlib (code-independent facts that need induction), re-checked on every run
+
+LEAN_LEMMAS = {
+    "adj_sorted_pairwise": (("C03", "C10", "C16"), "adjacent-sorted list of reals is pairwise sorted (hypothesis `pairwise(c)` of the interval-uniqueness and monotonicity lemmas)"),
+    "acc_chain": (("C03", "C10", "C16"), "running totals of non-negative weights are adjacent-sorted (precondition of bisect from weights >= 0, without float rounding)"),
+    "acc_ones": (("C16",), "accumulate([1]*n)[i] == i+1 (no weights == equal weights)"),
+    "grid_count": (("C03",), "|(ceil b - ceil a) - (b - a)| < 1: a group's number of grid points is within one of its exact share"),
+}
+
+
+def link_lean(ctx):
+    import re
+    import subprocess
+    import time
+    path = os.path.join(os.path.dirname(os.path.dirname(os.path.abspath(__file__))), "lean", "Ghost.lean")
+    src = open(path).read()
+    t0 = time.time()
+    try:
+        p = subprocess.run(["lean", path], capture_output=True, text=True, timeout=1500)
+        outp = (p.stdout + p.stderr).strip()
+        ok = p.returncode == 0 and "error" not in outp
+        detail = "lean exit %d in %.1fs; %s" % (p.returncode, time.time() - t0, outp[-400:])
+    except (OSError, subprocess.TimeoutExpired) as e:
+        ok, detail = None, "lean unavailable / timed out: %r" % (e,)
+    cheats = re.findall(r"\b(sorry|axiom|admit|native_decide)\b", re.sub(r"/-.*?-/", "", src, flags=re.S))
+    out = []
+    for name, (props, text) in LEAN_LEMMAS.items():
+        present = re.search(r"theorem\s+%s\b" % name, src) is not None
+        if ok is None or not present:
+            st = UNDECIDED
+        elif ok and not cheats:
+            st = DISCHARGED
+        else:
+            st = ERROR
+        o = Obl("lean:Ghost/%s" % name, "lemma:lean/" + name, "lemma", text, status=st, backend="lean4+mathlib", detail=detail + ("; forbidden tokens %s" % cheats if cheats else ""), props=props)
+        o.time_s = (time.time() - t0) / len(LEAN_LEMMAS)
+        out.append(o)
+    return out
